@@ -151,3 +151,15 @@ ENTRIES += [
     {'id': 'C08/benign-read-wait-then-result', 'prop': 'C08', 'kind': 'benign', 'edits': [(HC, _WF_OLD, _WF_WAIT + "\n        read_future.result()\n")]},
     {'id': 'C04/read-parked-in-wait', 'prop': 'C04', 'kind': 'break', 'expect': 'C04-D2', 'edits': [(HC, _WF_OLD, _WF_WAIT)]},
 ]
+
+CN = 'wpull/network/connection.py'
+ENTRIES += [
+    {'id': 'C08/read-armed-not-asked', 'prop': 'C08', 'kind': 'break', 'expect': 'C08-D6', 'edits': [(CN,
+      "        data = yield from \\\n            self.run_network_operation(\n                self.reader.read(amount),\n                close_timeout=self._timeout,\n                name='Read')\n",
+      "        with self._close_timer.with_timeout():\n            data = yield from \\\n                self.run_network_operation(\n                    self.reader.read(amount),\n                    name='Read')\n")]},
+    {'id': 'C08/readline-kw-dropped', 'prop': 'C08', 'kind': 'break', 'expect': 'C08-D6', 'edits': [(CN,
+      "                    self.reader.readline(),\n                    close_timeout=self._timeout,\n", "                    self.reader.readline(),\n")]},
+    {'id': 'C08/benign-readline-single-arming', 'prop': 'C08', 'kind': 'benign', 'edits': [(CN,
+      "        with self._close_timer.with_timeout():\n            data = yield from \\\n                self.run_network_operation(\n                    self.reader.readline(),\n                    close_timeout=self._timeout,\n                    name='Readline')\n",
+      "        data = yield from \\\n            self.run_network_operation(\n                self.reader.readline(),\n                close_timeout=self._timeout,\n                name='Readline')\n")]},
+]
